@@ -1562,3 +1562,32 @@ Proof. intros HR. apply (gs_next _ _ (a_gs _ _ (R_InvA _ _ _ HR))). Qed.
 (* every node reference a thread holds (iterator slots, registers) is a published node *)
 Lemma refs_published unf progs s t l c : R unf progs s -> nth_error (thr s) t = Some l -> In c (nrefs l) -> pubn (gl s) c.
 Proof. intros HR Hl. apply (t_refs _ _ (a_thr _ _ (R_InvA _ _ _ HR) t l Hl)). Qed.
+
+(* the node cell a step of the mutex holder writes to (or constructs) is a node cell *)
+Definition wtarget (p : pc) : option nat :=
+  match p with
+  | P_constr _ n | PF_next n _ | PB_back n _ => Some n
+  | PF_back _ old | PB_next _ old => Some old
+  | E_ld0 _ c => Some c
+  | E_s1 _ _ _ (Some p) _ => Some p
+  | E_s2 _ _ _ _ (Some x) => Some x
+  | _ => None
+  end.
+Lemma wtarget_isnode g ls t l k : InvA g ls -> nth_error ls t = Some l -> wtarget (at_ l) = Some k -> isnode g k = true.
+Proof.
+  intros IA Hl Hk.
+  assert (holds (at_ l) = true) as Hh by (destruct (at_ l); try discriminate; reflexivity).
+  destruct (hpc_holder _ _ _ _ IA Hl Hh) as [Ehp _]. pose proof (a_gs _ _ IA) as G. rewrite Ehp in G.
+  pose proof (gs_hold _ _ G) as H. pose proof (gs_back _ _ G) as B. pose proof (gs_nodes _ _ G) as N.
+  destruct (at_ l) eqn:E; try discriminate; cbn in Hk; cbn [hold_ok back_ok] in H, B.
+  - inversion Hk; subst. tauto.
+  - inversion Hk; subst. destruct H as [F _]. apply F.
+  - inversion Hk; subst. destruct H as (_ & _ & _ & _ & _ & _ & _ & Hd). destruct (hd_opt_In _ _ Hd) as [r Er]. apply N. rewrite Er. left. reflexivity.
+  - inversion Hk; subst. destruct H as [F _]. apply F.
+  - inversion Hk; subst. destruct H as (_ & _ & _ & _ & _ & _ & _ & Hd). apply N. apply last_opt_In. exact Hd.
+  - inversion Hk; subst. apply (t_refs _ _ (a_thr _ _ IA t l Hl)). unfold nrefs. rewrite E. apply in_or_app. right. left. reflexivity.
+  - destruct pv as [p|]; [|discriminate]. inversion Hk; subst. destruct H as (_ & l1 & l2 & El & Hp & _).
+    apply N. rewrite El. apply in_or_app. left. apply last_opt_In. auto.
+  - destruct nx1 as [x|]; [|discriminate]. inversion Hk; subst. destruct B as (_ & _ & _ & l1 & l2 & El & _ & Hx & _).
+    symmetry in Hx. destruct (hd_opt_In _ _ Hx) as [r Er]. apply N. rewrite El, Er. apply in_or_app. right. left. reflexivity.
+Qed.
